@@ -370,6 +370,7 @@ MUTANTS = [
     ('try_start_write-or2', """    bool try_start_write() {
         auto v = version.fetch_or(0x1, std::memory_order_acquire);""", """    bool try_start_write() {
         auto v = version.fetch_or(0x2, std::memory_order_acquire);""", 'L'),
+    ('lease-narrower-than-version', 'std::atomic<int> version{0};', 'std::atomic<long> version{0};', 'L0'),
     ('start_write-spin-no-reread', """            wait();
             // get an updated version
             v = version.fetch_or(0x1, std::memory_order_acquire);
@@ -403,6 +404,18 @@ def analyse(rep):
         ok = bool(lits) and lits[0] % 2 == 0
         rep.ob('L0-initial-even', '%s::version' % LOCK, ok, '%s:%s' % (hdr, fld[0]['l']),
                '' if ok else 'initial version %s is not even (a fresh lock would look write-locked)' % lits)
+    # the lease must store the version at full width: a narrower lease compares unequal for ever once the
+    # version exceeds its range (validate / try_upgrade_to_write then never succeed again)
+    lease = [r for r in par.records if r['name'] == 'Lease' and LOCK in r['qname']]
+    lf = [x for x in (lease[0]['fields'] if lease else []) if x['name'] == 'version']
+    if fld and lf:
+        vt = fld[0]['t'][len('std::atomic<'):-1]
+        ok = lf[0]['t'] == vt
+        rep.ob('L0-lease-width', '%s::Lease::version' % LOCK, ok, '%s:%s' % (hdr, lf[0]['l']),
+               '' if ok else 'the lease stores the version as `%s` but the lock word is `%s`: leases taken after the version leaves the '
+               'range of the lease type never validate or upgrade again' % (lf[0]['t'], vt))
+    else:
+        rep.analysis_broken('Lease::version field not found')
     names = analyse_unit(rep, par)
     missing = [n for n in EXPECTED if n not in names]
     if missing:
